@@ -436,6 +436,31 @@ func checkWalkCallback(c *Ctx, p *core.Prog, fns []*ssa.Function) {
 		if okInfo {
 			c.R.OK("R12.6", core.ShortFn(f)+": the walk callback uses its FileInfo only where err == nil", p.Pos(f.Pos()), "no unguarded use")
 		}
+		// R12.8 only files are collected: a path is appended to the list only where the entry was tested not to be a directory
+		for _, call := range core.CallsIn(f) {
+			bi, isB := call.Common().Value.(*ssa.Builtin)
+			if !isB || bi.Name() != "append" {
+				continue
+			}
+			notDir := false
+			for _, fct := range core.FactsAtInstr(call) {
+				cv, isCall := fct.Cond.(*ssa.Call)
+				if !isCall {
+					continue
+				}
+				name := ""
+				if cv.Call.IsInvoke() {
+					name = cv.Call.Method.Name()
+				} else if cal := cv.Call.StaticCallee(); cal != nil {
+					name = cal.Name()
+				}
+				if (name == "IsDir" && !fct.Truth) || (name == "IsRegular" && fct.Truth) {
+					notDir = true
+				}
+			}
+			c.R.Check(notDir, "R12.8", core.ShortFn(f)+": only entries that are not directories are collected", p.Pos(call.Pos()), "the append is dominated by IsDir() == false",
+				"a path is collected by its name alone: a directory whose name ends in \"txt\" is read as a file, which fails (\"is a directory\") and makes LoadLicenses return without loading the files that sort after it")
+		}
 	}
 	c.R.RequireMin("R12.5", "walk callbacks in LoadLicenses", n, 1)
 }
